@@ -6,11 +6,12 @@ sys.path.insert(0, HERE)
 props = [json.loads(l) for l in open(os.path.join(HERE, 'properties.jsonl'))]
 NA_FILE = os.path.join(HERE, 'tools', 'not_applicable.json')
 na_reasons = json.load(open(NA_FILE)) if os.path.exists(NA_FILE) else {}
+READY = set(open(os.path.join(HERE, 'tools', 'ready.txt')).read().split())
 checks, na = [], []
 for p in props:
     pid = p['id']
     path = os.path.join(HERE, 'lokiverif', 'props', pid.lower() + '.py')
-    if not os.path.exists(path) or pid in na_reasons:
+    if not os.path.exists(path) or pid in na_reasons or pid not in READY:
         na.append({'property_id': pid, 'reason': na_reasons.get(pid, 'check not built yet; planned in DESIGN.md section 3')})
         continue
     src = open(path).read()
